@@ -62,6 +62,10 @@ VS_CFGS = {
         V("mix-viv", ["VARCHAR", "INT"], 3, ["l1", "l300", "f400"], 3, 1, 3, maxbad=0, intcls=("1",)),
         # uniform causes (wrong type, INT out of range, oversized for every row) next to the mixed ones
         V("mix-iv-uniform", ["VARCHAR", "INT"], 2, ["l1", "l300", "f400"], 3, 1, 3, emit="refused-upd", wrong=True),
+        # three character columns: two assignments that each fit every row and together overflow the row whose third column is long
+        V("mix-vvv", ["VARCHAR"], 3, ["l1", "l150"], 3, 1, 3, maxbad=0),
+        # a fixed-width assignment (SET c = 1) that only overflows the row in which that column was NULL and the row was full
+        V("mix-null-grow", ["INT", "VARCHAR"], 2, ["l1", "f400"], 3, 1, 3, null=True, maxbad=0, intcls=("1",)),
     ],
     "thorough": [
         V("mix-vv", ["VARCHAR"], 2, ["l1", "l150", "l300", "f399", "f400", "f401"], 3, 2, 2),
@@ -70,6 +74,8 @@ VS_CFGS = {
         # three rows, the refusing row second or third; statements after the refused UPDATE
         V("mix-3rows", ["VARCHAR"], 2, ["l1", "l300", "f400"], 4, 2, 3, maxbad=0),
         V("mix-all-uniform", ["INT", "BIGINT", "BOOLEAN", "VARCHAR"], 2, ["l1", "l300", "f400"], 3, 1, 3, emit="refused-upd", wrong=True),
+        V("mix-vvv", ["VARCHAR"], 3, ["l1", "l150", "l300"], 3, 2, 3, maxbad=0),
+        V("mix-null-grow", ["INT", "BIGINT", "BOOLEAN", "VARCHAR"], 2, ["l1", "f399", "f400"], 3, 2, 3, null=True, maxbad=0, intcls=("1",)),
     ],
 }
 
